@@ -335,11 +335,11 @@ def run_case(case):
                         vals.append(float(fwd(q, case)))
                     transitions += 1
                 fds.append((vals[0] - vals[1]) / (2 * h))
-            if abs(fds[0] - fds[1]) > 1e-6 * (1 + abs(fds[1])):
+            if not abs(fds[0] - fds[1]) <= 1e-6 * (1 + abs(fds[1])):  # NaN fails
                 continue  # finite differences not converged: no verdict for this entry
             fd = (4 * fds[1] - fds[0]) / 3
             gmax = max(gmax, abs(fd))
-            if abs(ad - fd) > 2e-5 * (1 + abs(fd)):
+            if not abs(ad - fd) <= 2e-5 * (1 + abs(fd)):  # NaN fails
                 sig = f"grad|{case['loss']}-loss|{case['level']}|{name}"
                 if name == "psi" and float(torch.abs(g).max()) == 0.0:
                     sig = "grad|initial-state-through-config|identically-zero"
